@@ -122,7 +122,8 @@ def record(args):
         try:
             if r1:
                 vmax = int(rng.integers(1, 6))
-                tab = all_cuts_table(rng, n, 3 if mode == "contains" else 4, vmax, distinct=bool(rng.integers(0, 3) == 0))
+                distinct = n > 12 or bool(rng.integers(0, 2) == 0)  # tie-heavy tables only on short series
+                tab = all_cuts_table(rng, n, 3 if mode == "contains" else 4, vmax, distinct=distinct)
                 tab2 = {k: split_columns(v, p, rng) for k, v in tab.items()}
                 mk = (lambda: TableChangeScore(tab2, p=p)) if mode == "contains" else (lambda: TableLocalScore(tab2, p=p))
                 h = float(rng.integers(0, max(list(tab.values()) + [0]) + 1)) + 0.5
